@@ -141,7 +141,13 @@ def compare_fact(test_ast, polarity):
         op = _NEG.get(op)
         if op is None:
             return None
-    return (src(e.left), _SYM[op], src(e.comparators[0]))
+    sym = _SYM[op]
+    l_, r_ = e.left, e.comparators[0]
+    # canonical orientation: a constant operand goes to the right (`200 > x` is read as `x < 200`)
+    flip = {'<': '>', '<=': '>=', '>': '<', '>=': '<=', '==': '==', '!=': '!=', 'is': 'is', 'is not': 'is not'}
+    if isinstance(l_, ast.Constant) and not isinstance(r_, ast.Constant) and sym in flip:
+        return (src(r_), flip[sym], src(l_))
+    return (src(l_), sym, src(r_))
 
 
 def fact_matches(fact, left, ops, right):
